@@ -8,10 +8,14 @@ Line protocol (after the property id):
              | partial | apartial
   spec  <what> <nchan> <f> <lb> <ub> <fxy[0][0]> <fxy[0][1]> … (upper triangle, row-major, complex)
       what ∈ coherency | coherence | aphase | cohbavg | apartial
+  mtcsd <what> <Fs> <N> <sides> <M> <T> <tapers> <wmode> <weights> <x>   (arguments as C04/C06 `mtcsd`)
+      the multitaper estimator of the spectral model (`Nitime.C04.multiTaperCsdList`: tapered spectra from the
+      data, tapers and weights given as data) followed by the coherence layer; what ∈ coherency | coherence
   mt <N> <nchan> <nt> then per channel: nt complex rows (tapered spectra), nt real rows (weights)
 Results: `ok <flattened list>`; complex values as interleaved re,im.
 -/
 import Nitime.Model.CohBase
+import Nitime.Model.C04
 
 namespace Nitime.C08
 open Nitime.Coh Nitime.Coh.CScalar
@@ -152,8 +156,38 @@ def handleMt (args : List String) : Option String := do
     return "ok " ++ showRe (flat3 n n L coh)
   | _ => none
 
+/-- joint run with the spectral model: `coherency(x, multi_taper_csd)` = coherence layer ∘ `multiTaperCsdList` -/
+def handleMtCsd (args : List String) : Option String := do
+  match args with
+  | [what, fs, nfft, sides, m, t, taps, wmode, ws, xs] =>
+    let Fs ← Proto.parseFloat? fs
+    let N ← nfft.toNat?
+    let M ← m.toNat?
+    let T ← t.toNat?
+    let h ← Nitime.Num.parseFArray? taps
+    let w ← Nitime.Num.parseFArray? ws
+    let x ← Nitime.Num.parseCList? xs
+    if M = 0 then none
+    let n := x.size / M
+    let one := sides == "1"
+    let L := Nitime.Generated.SpecIdx.mt_csd_last_freq N one
+    let tw := Nitime.Num.twiddleFn N (Nitime.Num.twiddleTable N)
+    let hf : Nat → Nat → Float := fun t j => Nitime.Num.ffn h (t * n + j)
+    let wf : Nat → Nat → Nat → Float :=
+      if wmode == "f" then fun _ t _ => Nitime.Num.ffn w t else fun i t k => Nitime.Num.ffn w ((i * T + t) * L + k)
+    let S := (Nitime.C04.multiTaperCsdList tw Fs n N M one T hf wf (Nitime.C04.chan x n)).toArray
+    let spec : Nat → Nat → Nat → Cx := fun i j k =>
+      let z := S.getD ((i * M + j) * L + k) ⟨0.0, 0.0⟩
+      ⟨z.re, z.im⟩
+    match what with
+    | "coherency" => some ("ok " ++ showCx (flat3 M M L (coherencyMat spec)))
+    | "coherence" => some ("ok " ++ showRe (flat3 M M L (coherenceMat spec)))
+    | _ => none
+  | _ => none
+
 def handle (args : List String) : String :=
   match args with
+  | "mtcsd" :: rest => (handleMtCsd rest).getD "bad-op"
   | "welch" :: rest => (handleWelch rest).getD "bad-op"
   | "spec" :: rest => (handleSpec rest).getD "bad-op"
   | "mt" :: rest => (handleMt rest).getD "bad-op"
